@@ -862,6 +862,139 @@ def jqRun (s : JqSt) : List JqOp → JqSt
 def jqGet (s : JqSt) (q id : Nat) : Option GoMsg :=
   (s.msgs.find? fun p => p.1 == q && p.2.id == id).map (·.2)
 
+/-! ## Bridge deployment ids: which id the keeper hands to `GetCheckpoint`
+
+`GetCheckpoint(turnstoneID)` takes the bridge deployment id as an argument; the keeper supplies it.
+`BuildOutgoingTXBatch` (x/skyway/keeper/batch.go) issues `BytesToSign` with
+`string(ci.SmartContractUniqueID)` of the evm module's chain info of the batch's chain,
+`UpdateBatchGasEstimate` RE-ISSUES them with the same lookup once the gas estimate is elected, and
+`MsgConfirmBatch` verifies a signature against the checkpoint under that id.
+
+The chain info changes only in `ActivateChainReferenceID` (x/evm/keeper/keeper.go): a compass with
+an id not larger than the active one is ignored (`return nil` before any write) — but the deferred
+function publishes `EVMActivatedChain` whenever no error is returned, i.e. for the ignored call
+too, with the id of THAT call.  The skyway module's subscriber stores the event's id as its own
+"latest compass id" record (`setLatestCompassID`), which is not part of the module's genesis
+export.  So the record and the chain info can disagree; the record is modelled here as it behaves
+(`compassRec`) precisely to state that no signing bytes depend on it. -/
+
+/-- `evmtypes.ChainInfo` as far as the bridge batches read it -/
+structure ChainRec where
+  activeId : Nat := 0        -- `ActiveSmartContractID`
+  uniqueId : Bytes := []     -- `SmartContractUniqueID`
+deriving Repr, DecidableEq, Inhabited
+
+/-- a stored `OutgoingTxBatch`: `b.estimate` is `GasEstimate`, `bytes` is `BytesToSign` -/
+structure StoredBatch where
+  chain : Nat
+  b : GoBatch
+  bytes : Nat
+deriving Repr, Inhabited
+
+structure DepSt where
+  /-- evm chain infos by chain -/
+  chains : Nat → Option ChainRec := fun _ => none
+  /-- skyway `LatestCompassIDKey` by chain (`""` when never written) -/
+  compassRec : Nat → Bytes := fun _ => []
+  batches : List StoredBatch := []
+
+instance : Inhabited DepSt := ⟨{}⟩
+
+inductive DepOp where
+  | setChain (c active : Nat) (uid record : Bytes)   -- harness: the observed state of a chain
+  | activate (c scId : Nat) (uid : Bytes)            -- `ActivateChainReferenceID`
+  | build (c : Nat) (b : GoBatch)                    -- `BuildOutgoingTXBatch` produced `b` for chain `c`
+  | elect (token : Bytes) (nonce est : Nat)          -- `UpdateBatchGasEstimate`
+  | reimport                                         -- skyway `ExportGenesis` / `InitGenesis`
+  | getRec (c : Nat)                                 -- `GetLatestCompassID`
+deriving Repr, Inhabited
+
+inductive DepOut where
+  | ok
+  | chain (active : Nat) (uid record : Bytes)
+  | bytes (d : Nat)
+  | record (r : Bytes)
+  | noChain | notFound | already | dup | rejected
+deriving Repr, DecidableEq, Inhabited
+
+/-- point update of a total map -/
+def setAt {α : Type} (f : Nat → α) (k : Nat) (v : α) : Nat → α := fun i => if i = k then v else f i
+
+/-- `GetOutgoingTxBatchKey(tokenContract, nonce)`: the token as an address, and the nonce -/
+def batchKeyIs (tok nonce : Nat) (x : StoredBatch) : Bool :=
+  hexToAddress x.b.token == tok && x.b.nonce == nonce
+
+def findBatch (s : DepSt) (tok nonce : Nat) : Option StoredBatch := s.batches.find? (batchKeyIs tok nonce)
+
+/-- the stored batch after the election: estimate and `BytesToSign` replaced -/
+def StoredBatch.reissued (x : StoredBatch) (est d : Nat) : StoredBatch :=
+  { x with b := { x.b with estimate := est }, bytes := d }
+
+def depStep (H : Hash) (s : DepSt) (op : DepOp) : DepSt × DepOut :=
+  match op with
+  | .setChain c a uid r =>
+    ({ s with chains := setAt s.chains c (some { activeId := a, uniqueId := uid }),
+              compassRec := setAt s.compassRec c r }, .ok)
+  | .activate c scId uid =>
+    match s.chains c with
+    | none => (s, .noChain)                  -- `GetChainInfo` fails: error, no event
+    | some ci =>
+      if ci.activeId ≥ scId then
+        -- "if this is called with version lower than the current one, then do nothing": no error,
+        -- so the deferred function still publishes the event with this call's id
+        ({ s with compassRec := setAt s.compassRec c uid }, .chain ci.activeId ci.uniqueId uid)
+      else
+        ({ s with chains := setAt s.chains c (some { activeId := scId, uniqueId := uid }),
+                  compassRec := setAt s.compassRec c uid }, .chain scId uid uid)
+  | .build c b =>
+    match s.chains c with
+    | none => (s, .noChain)
+    | some ci =>
+      if (findBatch s (hexToAddress b.token) b.nonce).isSome then (s, .dup)   -- `StoreBatch` never overwrites
+      else
+        match goBatchCheckpoint H ci.uniqueId { b with estimate := 0 } with
+        | none => (s, .rejected)
+        | some d =>
+          ({ s with batches := { chain := c, b := { b with estimate := 0 }, bytes := d } :: s.batches }, .bytes d)
+  | .elect tok nonce est =>
+    match findBatch s (hexToAddress tok) nonce with
+    | none => (s, .notFound)
+    | some sb =>
+      if sb.b.estimate > 0 then (s, .already)
+      else
+        match s.chains sb.chain with
+        | none => (s, .noChain)
+        | some ci =>
+          match goBatchCheckpoint H ci.uniqueId { sb.b with estimate := est } with
+          | none => (s, .rejected)
+          | some d =>
+            ({ s with batches := s.batches.map fun x =>
+                 if batchKeyIs (hexToAddress tok) nonce x then x.reissued est d else x }, .bytes d)
+  | .reimport => ({ s with compassRec := fun _ => [] }, .ok)
+  | .getRec c => (s, .record (s.compassRec c))
+
+/-- `GetBytesToSign` of a turnstone message the evm keeper ITSELF queues for chain `c` (e.g.
+    `SendValsetMsgForChain`): the producer stamps `TurnstoneID: string(chainInfo.SmartContractUniqueID)`
+    into the message, whatever the caller's `m.turnstoneId`; `none` = the chain has no chain info -/
+def depMsgBytes (H : Hash) (s : DepSt) (c : Nat) (m : GoMsg) : Option SignResult :=
+  match s.chains c with
+  | none => none
+  | some ci => some (goSignBytes H { m with turnstoneId := ci.uniqueId })
+
+def depRun (H : Hash) (s : DepSt) : List DepOp → DepSt
+  | [] => s
+  | op :: ops => depRun H (depStep H s op).1 ops
+
+/-- the outputs along a history, oldest first -/
+def depTrace (H : Hash) (s : DepSt) : List DepOp → List DepOut
+  | [] => []
+  | op :: ops => (depStep H s op).2 :: depTrace H (depStep H s op).1 ops
+
+/-- the op reads the skyway record directly (the only op whose OUTPUT may depend on it) -/
+def DepOp.readsRecord : DepOp → Bool
+  | .getRec _ => true
+  | _ => false
+
 /-! ## executable hash -/
 
 /-- keccak256 as a number (used by the driver only) -/
